@@ -185,7 +185,7 @@ class History:
         if not self.contracts:
             return
         addr, admin = rng.choice(self.contracts)
-        cands = [h for h in handlers(prog) if h["safe"] and h["kind"] in ("exec", "query", "sudo", "migrate")]
+        cands = [h for h in handlers(prog) if h["safe"] and h["kind"] in ("exec", "query", "sudo", "migrate") and not h.get("resp_literal")]
         if not cands:
             return
         h = rng.choice(cands)
